@@ -105,6 +105,12 @@ def bodies(tier):
             for term in (True, False):
                 out.append({"name": f"{mode}/{[len(c) for c in chunks]}/{'T' if term else 'noT'}",
                             "chunks": chunks, "style": "lower", "term": term, "mode": mode})
+        # every one-byte body and a few two-byte ones (the first bytes of the compressed stream
+        # then take many different values)
+        singles = [bytes([v]) for v in range(256)] + [b"  ", b"$0", b"$7", b"\xd3\x00", b"x\x9c", b"\x1f\x8b"]
+        for k in range(0, len(singles), 3):
+            out.append({"name": f"{mode}/bytes{k}", "chunks": singles[k : k + 3], "style": "lower",
+                        "term": True, "mode": mode, "nobfs": True})
     return out
 
 
@@ -162,6 +168,9 @@ def judge(case):
     if case["kind"] == "bfs":
         c11.judge_bfs_case(case, out)
         return out
+    if case["kind"] == "instances":
+        c11.judge_instances(case, out)
+        return out
     wire = case["wire"]
     mode = case["mode"]
     expect = ref_dechunk(wire, mode)
@@ -211,7 +220,7 @@ def plan(tier):
     all_bodies = bodies(tier)
     # BFS representatives: spread over the body list (always incl. the compressed ones' first)
     reps = set(range(0, len(all_bodies), 3 if tier == "quick" else 1))
-    reps |= {i for i, b in enumerate(all_bodies) if b["mode"] != "chunked"}
+    reps |= {i for i, b in enumerate(all_bodies) if b["mode"] != "chunked" and not b.get("nobfs")}
     for idx, body in enumerate(all_bodies):
         wire = encode(body["chunks"], body["style"], body["term"], body["mode"])
         expect = ref_dechunk(wire, body["mode"])
@@ -253,7 +262,19 @@ def run(tier, seed, t0):
     w0 = encode(b0["chunks"], b0["style"], b0["term"], b0["mode"])
     core.check_deterministic(judge, {"kind": "comp", "name": "det", "wire": w0,
                                      "segs": [2, 1, len(w0) - 3], "bufsize": 4096, "mode": "chunked"})
-    st = core.pmap(_work_all, work)
+    inst_case = {"kind": "instances", "encoding": 1, "sources": [
+        (encode([b"hello", b"abc"]), b"helloabc"), (encode([b"x" * 17], "upper", False), b"x" * 17),
+        (encode([b"0\r\n", b"\r\n"]), b"0\r\n\r\n"), (encode([b"tail"]), b"tail")]}
+    inst = core._in_child(lambda: c11.judge(inst_case).violations)  # pylint: disable=protected-access
+    if inst:
+        st = core.Stats()
+        o = core.Outcome()
+        o.violations = list(inst)
+        st.add(inst_case, o)
+        st.capped = True
+        st.notes.append("exploration skipped: wrapper instances interfere with each other")
+    else:
+        st = core.pmap(_work_all, work)
     st.extra["bodies"] = len(bodies(tier))
     return core.finish(
         "C12", tier, seed, LEVEL, st, RULE, t0,
